@@ -61,7 +61,6 @@ import (
 	"fmt"
 	"io"
 	"net"
-	"os"
 	"sort"
 	"strings"
 	"testing"
@@ -105,8 +104,6 @@ const (
 	maxTriggerDuringPhase = 20 // a push is 8-15
 	maxTriggerPeerstore   = 10 // consumeMessage makes 8 of the counted peerstore calls
 )
-
-var dbgReasons = os.Getenv("C13_DEBUG") != ""
 
 // ---- plan ---------------------------------------------------------------------------------
 
@@ -152,7 +149,10 @@ const (
 	actPush = iota
 	actClose
 	actCloseAll
+	actHonestPush // honest H1 registers a protocol handler: its real identify pushes the new protocol list to the observer
 )
+
+const honestExtraProto = "/h1/extra/1"
 
 type trigPlan struct {
 	io       bool // start when the observer's raw socket of conn reaches an I/O call index
@@ -196,6 +196,8 @@ func (a actPlan) String() string {
 		return fmt.Sprintf("push on conn %d %s: %s", a.conn, a.trig, a.send)
 	case actClose:
 		return fmt.Sprintf("close conn %d by %s %s", a.conn, side, a.trig)
+	case actHonestPush:
+		return fmt.Sprintf("honest H1 adds protocol %s (its identify pushes to the observer) %s", honestExtraProto, a.trig)
 	}
 	return fmt.Sprintf("close ALL by %s %s", side, a.trig)
 }
@@ -263,10 +265,16 @@ func drawPlan(g simrt.Gen) (*plan, *world) {
 	}
 	p.overlap = g.Chance(1, 3) && !p.wipe
 	nact := g.Weighted(1, 3, 4, 3, 2)
-	pushes, lastPushConn := 0, -1
+	pushes, lastPushConn, honestPush := 0, -1, false
 	for i := 0; i < nact; i++ {
 		var a actPlan
-		a.kind = g.Weighted(6, 4, 2)
+		a.kind = g.Weighted(6, 4, 2, 1)
+		if a.kind == actHonestPush && honestPush {
+			a.kind = actPush
+		}
+		if a.kind == actHonestPush {
+			honestPush = true
+		}
 		if a.kind == actPush && pushes >= maxPushesPerRun {
 			a.kind = actClose
 		}
@@ -402,6 +410,8 @@ type exec struct {
 	muxFull   *msmux.MultistreamMuxer[protocol.ID]
 	muxNoID   *msmux.MultistreamMuxer[protocol.ID]
 	phaseB    bool
+	honestPushed bool
+	quiet     bool // past the first quiescent check: closes from here on race with nothing
 	fired     int
 	preAll    map[string]bool
 	prePerm   map[string]bool
@@ -638,6 +648,9 @@ func (x *exec) findObsConn(c *bconn) network.Conn {
 
 func (x *exec) closeConn(c *bconn, byObs bool, why string) {
 	c.closed = true
+	if !x.quiet {
+		x.o.Fault("close-during-activity")
+	}
 	if byObs {
 		if oc := x.findObsConn(c); oc != nil {
 			x.logf("  [%d] observer closes conn %d (%s)", simrt.Stamp(), c.idx, why)
@@ -662,6 +675,10 @@ func (x *exec) doAction(k int, a actPlan) {
 		c := x.conns[a.conn]
 		simrt.Recv("c13-ready", c.ready)
 		x.closeConn(c, a.byObs, fmt.Sprintf("action %d", k))
+	case actHonestPush:
+		x.honestPushed = true
+		x.logf("  [%d] H1 registers %s", simrt.Stamp(), honestExtraProto)
+		x.H[0].Host.SetStreamHandler(honestExtraProto, func(s network.Stream) { s.Reset() })
 	case actCloseAll:
 		for _, c := range x.conns {
 			simrt.Recv("c13-ready", c.ready)
@@ -670,6 +687,7 @@ func (x *exec) doAction(k int, a actPlan) {
 			for _, c := range x.conns {
 				c.closed = true
 			}
+			x.o.Fault("close-during-activity")
 			x.logf("  [%d] observer closes all connections to byz (action %d)", simrt.Stamp(), k)
 			x.O.Swarm.ClosePeer(x.w.byz.id)
 			// connections the observer's swarm does not list yet are closed by byz
@@ -1010,10 +1028,8 @@ func (x *exec) main(tape *simrt.Tape) {
 		x.prePerm[w.byz.addr.String()] = true
 		x.preShort[extra.String()] = true
 	}
-	if pl.conns[0].outbound {
-		// Host.Connect absorbs the AddrInfo's addresses with TempAddrTTL itself; the permanent entry above stays
-		x.preShort[w.byz.addr.String()] = x.preShort[w.byz.addr.String()]
-	}
+	// (when the observer dials, Host.Connect absorbs byz's listen address with TempAddrTTL itself; the plan forces
+	// pre >= 1 in that case, so the address is already among the permanent pre-existing ones)
 	for a := range x.prePerm {
 		x.preAll[a] = true
 	}
@@ -1087,6 +1103,7 @@ func (x *exec) main(tape *simrt.Tape) {
 	if pl.wipe {
 		// the application drops what it knows about byz (documented: everything except addresses), connections stay
 		x.ps.RemovePeer(w.byz.id)
+		o.Fault("application-forgets-peer")
 		x.logf("  Peerstore.RemovePeer(byz): keys=%v", snapPeer(x.ps, w.byz.id).inKeys)
 	}
 	for i, rp := range x.raws {
@@ -1127,11 +1144,21 @@ func (x *exec) main(tape *simrt.Tape) {
 	}
 
 	// ---- Q1: everything sent has been consumed or refused
+	x.quiet = true
 	x.checkEvents()
 	x.checkByz("after-activity", false)
 	for _, id := range bystanders {
 		after := snapPeer(x.ps, id.id)
-		if b := before[id.name]; b.String() != after.String() {
+		b := before[id.name]
+		if id == w.h1 && x.honestPushed && b.String() != after.String() {
+			// H1 itself announced one more protocol; whether its push has been consumed is not asserted (weaker)
+			b.protos = append(append([]string(nil), b.protos...), honestExtraProto)
+			sort.Strings(b.protos)
+			if b.String() == after.String() {
+				o.Probe("honest-push-consumed-concurrently")
+			}
+		}
+		if b.String() != after.String() {
 			o.Violate("C13/cross-talk/"+id.name, "observer's peerstore entry of %s changed during byzantine activity:\n before %v\n after  %v", id.name, b, after)
 		}
 	}
@@ -1361,9 +1388,6 @@ func (x *exec) checkEvents() {
 			}
 			if f.Peer == w.byz.id {
 				o.Probe("identify-failed-event")
-				if dbgReasons {
-					o.Probe("DBG-reason-" + fmt.Sprintf("%.40s", fmt.Sprint(f.Reason)))
-				}
 			}
 			continue
 		}
@@ -1424,6 +1448,9 @@ func (x *exec) summarise() {
 		n := x.completed[s.msg.tag]
 		sig = append(sig, fmt.Sprintf("%s:%s:%s:%s:c%d:done%d", s.msg.tag, kind, modeNames[s.mode], s.outcome, s.conn, n))
 		o.Probe("sent-" + kind + "-" + modeNames[s.mode])
+		if s.mode != modeRespond {
+			o.Fault(kind + "-" + modeNames[s.mode])
+		}
 		if n > 0 {
 			o.Probe("consumed-" + kind)
 			for _, f := range s.msg.feats {
